@@ -430,7 +430,7 @@ prop('C18',
            'under 3 drawn height seeds (virtual clock offset inside a synctest bubble, which is what seeds the node heights); oracle: Go map for every '
            'return value and for Get of the whole universe after EVERY step, plus the parsed String() form after every step (live keys strictly ascending '
            'under the scenario order and equal to the model key set, forward pointers only to strictly larger live keys); '
-           'string keys include percent characters (100%, %v, a%sb, %d%%); a third of the histories drive a second list alongside (own model) with interleaved operations; a separate part (race detector on) executes 2..8 independent scenarios in as many goroutines at once, each repeated 20-30 times: instances of their own share nothing; non-trivial = the history re-inserts or reads a removed key, overwrites a key, or inserts in descending order; distinct = different canonical scenario'),
+           'string keys include percent characters (100%, %v, a%sb, %d%%); a third of the histories drive a second list alongside (own model) with interleaved operations; a separate part (race detector on) executes 2..8 independent scenarios in as many goroutines at once, each repeated 20-30 times: instances of their own share nothing; in a third of the histories the printed form is read only after a drawn subset of the steps (and the last one), so that a form remembered between steps is exposed; non-trivial = the history re-inserts or reads a removed key, overwrites a key, or inserts in descending order; distinct = different canonical scenario'),
      assumptions=['internal/maplike is exercised as a staged copy of the working-tree sources under the import path github.com/fogfish/golem/maplike',
                   'node heights are made deterministic through the bubble clock only (no source change): skiplist.New seeds from time.Now()',
                   'string keys are non-empty and contain no blanks so that the printed form can be parsed unambiguously'],
@@ -456,7 +456,7 @@ prop('C19',
            'Head, Length, IsEmpty, Fold with (a*31+b) mod p from a non-neutral Empty) over a growing register file, register indices taken modulo the '
            'registers existing; executed in lock-step on list.Trait[int], slice.Trait[int] and a [][]int model; after EVERY step every register is '
            're-read through Head/Tail/IsEmpty on both implementations and compared with the model (persistence); '
-           '5% of the New operations use a window of a buffer with 1100..2500 spare elements, 5% more than 1024 elements; a separate part (race detector on) executes 2..8 independent scenarios in as many goroutines at once, each repeated 20-30 times: instances of their own share nothing; non-trivial = some Cons on a register of length >= 1 or Tail on a register of length >= 2 (so a register is re-read after being extended/cut); '
+           '5% of the New operations use a window of a buffer with 1100..2500 spare elements, 5% more than 1024 elements; a separate part (race detector on) executes 2..8 independent scenarios in as many goroutines at once, each repeated 20-30 times: instances of their own share nothing; one scenario in sixty inserts a sequence whose length sits at a power of two (64..8192, -1/0/+1) and folds it four times; non-trivial = some Cons on a register of length >= 1 or Tail on a register of length >= 2 (so a register is re-read after being extended/cut); '
            'distinct = different canonical script'),
      assumptions=['internal/seq is exercised as a staged copy of the working-tree sources under the import path github.com/fogfish/golem/seq',
                   'Head/Tail of an empty sequence are outside the statement and are not generated'],
@@ -465,7 +465,7 @@ prop('C19',
          dict(name='parallel', engine='E6', pkg='c19', test='TestC19Par', race=True, replay_test='TestReplayPar', env=dict(GORACE='halt_on_error=1'),
               quick=dict(cases=150, shards=2), thorough=dict(cases=4000, shards=8, timeout=3000)),
          dict(name='rapid', engine='E6', pkg='c19', test='TestC19',
-              quick=dict(cases=80000, shards=1), thorough=dict(cases=1600000, shards=16, timeout=1800)),
+              quick=dict(cases=20000, shards=4), thorough=dict(cases=1600000, shards=16, timeout=1800)),
          dict(name='fuzz', engine='coverage-guided sweep', kind='fuzz', pkg='c19', test='FuzzC19',
               thorough=dict(execs=3000000, timeout=2400)),
      ],
@@ -482,15 +482,15 @@ prop('C20',
      rule=('generated: N in 2..20, a family of N functions (position-tagged trace appenders on strings, '
            'affine maps mod 1000003, arbitrary lookup tables on [0,7)), 1..3 arguments applied in turn to the one '
            'composed function; oracle: left-to-right fold of the same functions + per-function call counters; '
-           'two more families: functions over `any` returning the nil interface for some inputs, and a stage that re-enters the composed function while the outer call is in flight; a third of the scenarios call with the same argument twice in a row; a separate generated part builds two compositions and calls them alternately; a sixth family has one stage panic (error, string, int, struct or pointer value): the composition panics with the very same value, earlier stages applied once, later ones not at all; a separate part (race detector on) executes 2..8 independent scenarios in as many goroutines at once, each repeated 20-30 times: instances of their own share nothing; non-trivial = all N functions pairwise different; distinct = different canonical scenario'),
+           'two more families: functions over `any` returning the nil interface for some inputs, and a stage that re-enters the composed function while the outer call is in flight; a third of the scenarios call with the same argument twice in a row; a separate generated part builds two compositions and calls them alternately; a sixth family has one stage panic (error, string, int, struct or pointer value): the composition panics with the very same value, earlier stages applied once, later ones not at all; a separate part (race detector on) executes 2..8 independent scenarios in as many goroutines at once, each repeated 20-30 times: instances of their own share nothing; a mixed family composes stages of different types (int->int, int->string, string->int, string->string) in three fixed type patterns per N (generated table mixed_gen.go), each stage depending on its position; a composition that never returns (self-deadlock) is reported by the deadlock detector of the Go runtime because these parts run without a timer inside the test binary; non-trivial = all N functions pairwise different; distinct = different canonical scenario'),
      assumptions=['internal/pipe is exercised as a staged copy of the working-tree source (package pure, imported as verif.stage/purepipe)',
-                  'type parameters are instantiated at int and string only; the generic bodies are parametric in their types'],
+                  'type parameters are instantiated at int, string and any, homogeneously and in three mixed int/string patterns'],
      parts=[
-         dict(name='each', engine='E7', pkg='c20', test='TestC20Each', kind='plain',
+         dict(name='each', engine='E7', pkg='c20', test='TestC20Each', kind='plain', env=dict(VERIF_NO_GO_TIMEOUT='1'),
               quick=dict(shards=1), thorough=dict(shards=1)),
          dict(name='parallel', engine='E7', pkg='c20', test='TestC20Par', race=True, replay_test='TestReplayPar', env=dict(GORACE='halt_on_error=1'),
               quick=dict(cases=150, shards=2), thorough=dict(cases=4000, shards=8, timeout=3000)),
-         dict(name='rapid', engine='E7', pkg='c20', test='TestC20',
+         dict(name='rapid', engine='E7', pkg='c20', test='TestC20', env=dict(VERIF_NO_GO_TIMEOUT='1'),
               quick=dict(cases=80000, shards=1), thorough=dict(cases=4000000, shards=16, timeout=1800)),
          dict(name='fuzz', engine='coverage-guided sweep', kind='fuzz', pkg='c20', test='FuzzC20',
               thorough=dict(execs=3000000, timeout=2400)),
